@@ -9,7 +9,7 @@ THEOREMS = ["IsoVerif.Props.C14." + t for t in ("C14_perm_invariant", "C14_sites
                                                 "C14_witness_first_wins_order_sensitive", "C14_fixed_first_wins")]
 HARNESS = ("hx_arts", {"HX_ENGINE": "det"})
 DRIVER = "drv_arts"
-CASES = {"quick": 40, "thorough": 1500}
+CASES = {"quick": 40, "thorough": 900}
 TECHNIQUE = ("translator T8 lists every iteration over a HashMap/HashSet in the anchored files (syntactic scan over a workspace-wide index of hash-typed functions, fields and newtypes; anything it cannot "
              "classify is a TranslateError); Lean 4: every sink shape those iterations feed (sorted set, sorted map keyed by the element, collect-then-sort, collect-then-sorted-set, path-keyed artifact list, "
              "counters, hash set to hash set) is a fold proved invariant under permutation of the iterated list, and the kernel decides that the hand-made classification covers exactly the generated sites; "
